@@ -216,14 +216,16 @@ def playback(ws, spec, timeout=900):
            '-Z', 'concrete-playback', '--concrete-playback=print']
     rc, out, err, s = C.run(cmd, cwd=lib, timeout=timeout)
     text = out + err
-    m = re.search(r'```\n(.*?)```', text, re.S)
-    if not m:
+    blocks = re.findall(r'```\n(.*?)```', text, re.S)
+    # Kani also prints playback tests for satisfied cover properties: only failed checks are of interest
+    blocks = [b for b in blocks if 'Check for `cover`' not in b] or blocks
+    if not blocks:
         return None, 'no concrete playback test was produced\n' + text[-1500:], ''
-    test_src = m.group(1)
-    tm = re.search(r'fn (kani_concrete_playback_\w+)', test_src)
-    if not tm:
+    test_src = '\n'.join(blocks[:4])
+    names = re.findall(r'fn (kani_concrete_playback_\w+)', test_src)
+    if not names:
         return None, 'cannot find playback test name', test_src
-    test_name = tm.group(1)
+    test_name = 'kani_concrete_playback_'
     # put the test into the harness module of a second copy of the overlay file
     rel = None
     for frag, target in FRAGMENTS.items():
